@@ -4,6 +4,7 @@ import Stackage.Lemmas.Push
 import Stackage.Lemmas.Alias
 import Stackage.Lemmas.AliasEq
 import Stackage.Lemmas.DefragMap
+import Stackage.Lemmas.Unmarshal
 
 /-!
 # C12 — user-defined aliases of Stack and Condition behave as the native types
@@ -84,6 +85,85 @@ end
 as a Condition's expression is the alias of the same instance) -/
 theorem C12_unmarshal (s : Stk) : s.erase.unmarshal = eraseList s.unmarshal := by
   unfold Stk.unmarshal Stk.erase; simp only [eraseList, unmarshalElems_erase, erase, strV]
+
+/-! ## Unmarshal with Unmarshaler closures anywhere in the tree
+
+An Unmarshaler (`func(...any) ([]any, error)`) is called without arguments: it is not handed the instance, so its
+result `K.unmarshal p` is one fixed list whatever the forms in the tree are. Three statements, from the most general down:
+
+* `C12_unmarshalP_eraseU` (every `K`): the twin's `Unmarshal()`, with the closures' own results shown in native form
+  (`K.eraseU`), is the erased result of the alias tree, with the same error;
+* `C12_unmarshalP` (every `K`, no hypothesis): shown in native form on both sides - which is what an observer comparing
+  "as the native types" looks at, and what the correspondence stream prints - the two results are the same list and
+  the same error. The closure-produced lists are erased like everything else;
+* `C12_unmarshalP_native` (hypothesis `K.UmfNative`: the closures' own results hold native forms only): literally
+  `s.erase.UnmarshalP K = (eraseList result, same error)`.
+
+In all three the receiver's own Unmarshaler, the Unmarshalers of nested Conditions and of Condition-held Stacks (all
+consulted) and those of directly nested Stacks (never consulted, in any form: `C14_unmarshal_nested_stack_ignored`)
+are covered, and so is the error that ends the walk early. -/
+
+theorem C12_unmarshalP_eraseU (K : Closures) (s : Stk) :
+    s.erase.UnmarshalP K.eraseU = (eraseList (s.UnmarshalP K).1, (s.UnmarshalP K).2) := by
+  unfold Stk.UnmarshalP Stk.erase
+  cases hu : s.cfg.umf with
+  | some p => simp only [Closures.eraseU]
+  | none => simp only [unmarshalElemsK_erase K s.xs, eraseList, erase, strV]
+
+/-- **`Unmarshal()` with closures**: for every closure environment, the alias tree and its native twin give the same
+entries (compared in native form) and the same error -/
+theorem C12_unmarshalP (K : Closures) (s : Stk) :
+    eraseList (s.erase.UnmarshalP K).1 = eraseList (s.UnmarshalP K).1 ∧ (s.erase.UnmarshalP K).2 = (s.UnmarshalP K).2 := by
+  have h1 := C12_unmarshalP_eraseU K s.erase
+  have h2 := C12_unmarshalP_eraseU K s
+  rw [Stk.erase_idem, h2] at h1
+  exact ⟨(congrArg Prod.fst h1).symm, (congrArg Prod.snd h1).symm⟩
+
+theorem Stk.UnmarshalP_eraseU (K : Closures) (hK : K.UmfNative) (s : Stk) : s.UnmarshalP K.eraseU = s.UnmarshalP K := by
+  unfold Stk.UnmarshalP
+  cases hu : s.cfg.umf with
+  | some p => simp only [Closures.eraseU, hK p]
+  | none => simp only [unmarshalElemsK_eraseU K hK]
+
+/-- … and literally the erased result when the closures' own results hold native forms only -/
+theorem C12_unmarshalP_native (K : Closures) (hK : K.UmfNative) (s : Stk) :
+    s.erase.UnmarshalP K = (eraseList (s.UnmarshalP K).1, (s.UnmarshalP K).2) := by
+  rw [← C12_unmarshalP_eraseU K s, Stk.UnmarshalP_eraseU K hK]
+
+/-- the same for a Condition receiver whose expression holds alias forms (`Condition.Unmarshal()`) -/
+theorem C12_cond_unmarshalP_eraseU (K : Closures) (c : Cnd) :
+    ({ c with ex := erase c.ex } : Cnd).UnmarshalP K.eraseU = (eraseList (c.UnmarshalP K).1, (c.UnmarshalP K).2) := by
+  unfold Cnd.UnmarshalP
+  cases hu : c.cfg.umf with
+  | some p => simp only [Closures.eraseU]
+  | none => simp only [unmarshalExprK_erase K c.ex, eraseList, erase, strV]
+
+theorem C12_cond_unmarshalP (K : Closures) (c : Cnd) :
+    eraseList (({ c with ex := erase c.ex } : Cnd).UnmarshalP K).1 = eraseList (c.UnmarshalP K).1 ∧
+    (({ c with ex := erase c.ex } : Cnd).UnmarshalP K).2 = (c.UnmarshalP K).2 := by
+  have h1 := C12_cond_unmarshalP_eraseU K { c with ex := erase c.ex }
+  have h2 := C12_cond_unmarshalP_eraseU K c
+  simp only [erase_idem] at h1
+  rw [h2] at h1
+  exact ⟨(congrArg Prod.fst h1).symm, (congrArg Prod.snd h1).symm⟩
+
+/-- with no Unmarshaler anywhere this is `C12_unmarshal` again -/
+theorem C12_unmarshalP_noUmf (K : Closures) (s : Stk) (h : s.cfg.umf = none) (hx : noUmfList s.xs = true) :
+    s.UnmarshalP K = (s.unmarshal, none) := by
+  unfold Stk.UnmarshalP Stk.unmarshal; rw [h]; simp only [unmarshalElemsK_noUmf K s.xs hx]
+
+/-- non-vacuity: a tree whose *native* nested Stack and whose pointer-form nested Stack both carry an Unmarshaler (neither is
+consulted), with a Condition alias that carries one (consulted) and a Condition holding an alias Stack that carries a failing
+one (consulted: the walk ends there, before the last element) -/
+example :
+    let K : Closures := { unmarshal := fun p => ([.leaf (.int p), .stk .alias { kind := 1 } []], if p == 3 then some 7 else none) }
+    let t : Stk := ⟨{ kind := 1 }, [.stk .native { kind := 2, umf := some 1 } [.leaf (.str ['a'])],
+        .stk .ptr { kind := 2, umf := some 1 } [.leaf (.str ['a'])],
+        .cnd .alias { kind := 5, umf := some 2 } ['k'] (.cmp 1) (.leaf (.int 1)),
+        .cnd .ptr { kind := 5 } ['k'] (.cmp 1) (.stk .aliasS { kind := 4, umf := some 3 } [.leaf (.int 1)]),
+        .leaf (.str ['z'])]⟩
+    (t.UnmarshalP K).2 = some 7 ∧ (t.UnmarshalP K).1.length = 4 ∧ (t.erase.UnmarshalP K).2 = some 7 ∧
+    (t.erase.UnmarshalP K).1.length = 4 := by decide
 
 /-! ## IsNesting, Condition.Len, no-nesting refusal, Transfer, converters -/
 
